@@ -786,7 +786,11 @@ def do_step(w: World, step: dict) -> None:
         f = step.get("fault")
         if f and f["kind"] == "loader_j":
             spec = w.plan["envs"][w.hspec[step["h"]]["env"]]
-            if spec.get("default_global") or spec["loader"].startswith("c"):
+            pickled = any(ev[0] == "pickle" and ev[1] == step["h"]
+                          for ev in w.env_events[w.hspec[step["h"]]["env"]])
+            # (a handle that went through pickle lives on a detached copy of its environment and
+            # loader: a positional fault armed on the instrumented store cannot reach that copy)
+            if spec.get("default_global") or spec["loader"].startswith("c") or pickled:
                 # a cache legitimately hides a storage fault (C14's permitted staleness):
                 # positional loader faults are injected only where nothing is cached
                 step = {k: v for k, v in step.items() if k != "fault"}
